@@ -532,3 +532,5 @@ def add_variants(g: Grammar, gx):
         "_parse_typeid_noparen_declarator": [("declarator[typeid-noparen]", lambda gx, p: ((), {}))],
     }
     g.eof_ok = {"translation-unit", "translation-unit-or-empty", "external-declaration"}
+    # methods that take their first token without looking at its type: what their callers must guarantee
+    g.entry_pre = {"_parse_struct_or_union_specifier": {"STRUCT", "UNION"}}
